@@ -16,8 +16,19 @@
 //!       `encrypt_data` of the real master key), `A<p>` real `add_key`, `r<i>` `delete_key` of the i-th added key, `x0|xf`
 //!       plant an unparsable key file under id 00…/ff… (listed first / last), `y0|yf` a key file whose `data` is 5 bytes,
 //!       `o<p>` open with password p, `m` open with the master key.  -> `ok <result per o/m>` (`ok` | `err:Kind`)
+//!       Password numbers: 0..9 = `pw<n>`; 10.. = a table of passwords with leading / trailing / only white space, empty, inner blank,
+//!       non-ASCII (pairwise distinct strings, several trim to another table entry) — see `password`.
+//!  * `initpw <p> <q,…>`    real `Repository::init` with password p, then open with each q -> `ok <result per q>`
 //!  * `scan <seed>`         oracle only (model: `ok`): backups + prune history with planted needles (names, contents, json
 //!       field names); no stored non-key file may contain a needle; all nonces (files, blobs, pack headers) pairwise distinct.
+//!  * `hist <seed>`         oracle only: a seeded command history (backup / merge / forget+prune / prune --repack-all / repair
+//!       index --read-all / config change / key add) with needles in file names, directory names, symlink targets, contents,
+//!       host, label, tags, description and command line; after EVERY command every stored file of every non-key type — and
+//!       every file a command removed, captured at the moment of its removal — is scanned for the needles and for JSON
+//!       field names; key files must never contain the master key's secret strings; all four non-key file types must have
+//!       been seen.  -> `ok` | `oracle-fail:plaintext-in-<type>-after-<cmd>` | …
+//!  * `sites`               the `write_bytes` call sites of the CURRENT source (tools/c04_write_sites.py on <repo>/crates/core/src)
+//!       vs the model's table `Model/WriteSites.lean` (theorem `every_non_key_write_is_encrypted`) -> `ok <lines joined by ;>`
 //!  * `tamper <seed>`       oracle only: every stored non-key file × {bit flips at first/last/middle/random positions,
 //!       truncation, extension}: the affected read fails or returns the original content, never other content.
 //!  * `swap snapshot <seed>` exchange the stored bytes of two snapshot files and read the first id: returns the second
@@ -39,6 +50,16 @@ use rustic_core::{
 };
 
 // ------------------------------------------------------------------ generator
+
+/// passwords for the random key scripts: the plain ones, or (1 in 3) one of the white-space / unicode table or what it trims to
+fn pick_pw(rng: &mut Rng, plain: u64) -> u64 {
+    if rng.chance(1, 3) {
+        let (w, t) = *rng.pick(&WS_TRIMS);
+        if rng.chance(1, 3) { t.unwrap_or(w) } else { w }
+    } else {
+        rng.below(plain)
+    }
+}
 
 pub fn generate(thorough: bool, rng: &mut Rng, ops: &mut Vec<String>, stats: &mut Stats) {
     // messages of ALL lengths 0..=N, plus a few long ones
@@ -97,34 +118,107 @@ pub fn generate(thorough: bool, rng: &mut Rng, ops: &mut Vec<String>, stats: &mu
         for _ in 0..len {
             match rng.below(12) {
                 0 | 1 | 2 => {
-                    s.push(format!("a{}", rng.below(4)));
+                    s.push(format!("a{}", pick_pw(rng, 4)));
                     added += 1;
                 }
                 3 if i % 5 == 0 => {
-                    s.push(format!("A{}", rng.below(4)));
+                    s.push(format!("A{}", pick_pw(rng, 4)));
                     added += 1;
                     stats.hit("keys.real-add");
                 }
                 4 if added > 0 => s.push(format!("r{}", rng.below(added))),
                 5 if rng.chance(1, 3) => s.push(rng.pick(&["x0", "xf", "y0", "yf"]).to_string()),
                 6 => s.push("m".into()),
-                _ => s.push(format!("o{}", rng.below(5))),
+                _ => s.push(format!("o{}", pick_pw(rng, 5))),
             }
         }
-        s.push(format!("o{}", rng.below(4)));
+        s.push(format!("o{}", pick_pw(rng, 4)));
         s.push("m".into());
         stats.hit("keys.script");
         ops.push(format!("c04 keys {}", s.join(",")));
     }
+    // open attempts around key removal: right / wrong / removed passwords, the same password under two key files,
+    // removal of the first / last / only added key, master key throughout
+    for _ in 0..(if thorough { 40 } else { 6 }) {
+        let (p, q, w) = (rng.below(4), rng.below(4), 4 + rng.below(3));
+        let shape = match rng.below(4) {
+            0 => format!("a{p},a{q},o{p},o{q},o{w},r0,o{p},o{q},o{w},m,r1,o{p},o{q},m"),
+            1 => format!("a{p},a{p},o{p},r0,o{p},r1,o{p},o{w},m"),
+            2 => format!("a{p},o{p},r0,o{p},m,a{q},o{q},o{p},r1,o{q},m"),
+            _ => format!("a{p},a{q},a{w},r1,o{q},o{p},o{w},r2,o{w},o{p},r0,o{p},m"),
+        };
+        stats.hit("keys.removal-script");
+        ops.push(format!("c04 keys {shape}"));
+    }
+    // REAL `add_key` / `init` (default scrypt cost, ≈ 0.4 s per derivation) with passwords that carry white space / are empty /
+    // non-ASCII: exactly the added passwords open; what they trim to, and other paddings of it, do not (unless added too)
+    for _ in 0..(if thorough { 30 } else { 5 }) {
+        let (w, t) = *rng.pick(&WS_TRIMS);
+        let t = t.unwrap_or(1);
+        let (w2, _) = *rng.pick(&WS_TRIMS);
+        let shape = match rng.below(4) {
+            0 => format!("A{w},o{w},o{t},o{w2},m"),
+            1 => format!("A{t},o{w},o{t},A{w},o{w},o{w2},m"),
+            2 => format!("A{w},A{w2},o{t},o{w},r0,o{w},o{w2}"),
+            _ => format!("a{t},A{w},r0,o{t},o{w},m"),
+        };
+        stats.hit("keys.real-add-whitespace");
+        ops.push(format!("c04 keys {shape}"));
+    }
+    for _ in 0..(if thorough { 12 } else { 2 }) {
+        let (w, t) = *rng.pick(&WS_TRIMS);
+        let t = t.unwrap_or(1);
+        let (w2, _) = *rng.pick(&WS_TRIMS);
+        stats.hit("initpw");
+        ops.push(format!("c04 initpw {w} {w},{t},{w2}"));
+    }
     for _ in 0..(if thorough { 40 } else { 3 }) {
         ops.push(format!("c04 scan {}", rng.below(1 << 40)));
         stats.hit("scan");
+    }
+    for _ in 0..(if thorough { 300 } else { 24 }) {
+        ops.push(format!("c04 hist {}", rng.below(1 << 40)));
+        stats.hit("hist");
     }
     for _ in 0..(if thorough { 25 } else { 2 }) {
         ops.push(format!("c04 tamper {}", rng.below(1 << 40)));
         stats.hit("tamper");
     }
     ops.push(format!("c04 swap snapshot {}", rng.below(1 << 40)));
+    ops.push("c04 sites".to_string());
+    stats.hit("sites");
+}
+
+
+// ------------------------------------------------------------------ nonce independence (statistical)
+
+/// Nonces of independently drawn 16 random bytes are, with overwhelming probability, far apart: read as 128-bit integers in
+/// either byte order no two differ by less than 2^64 (this also means: no common prefix or suffix of 8 bytes or more).
+/// A counter / timestamp / per-process sequence fails this although all values are distinct.  Statistical test, not a
+/// proof: for n nonces the false-alarm probability is about n^2 * 2^-63.
+fn nonces_related(nonces: &[[u8; 16]]) -> bool {
+    let distinct: BTreeSet<[u8; 16]> = nonces.iter().copied().collect();
+    for le in [false, true] {
+        let mut v: Vec<u128> = distinct.iter().map(|b| if le { u128::from_le_bytes(*b) } else { u128::from_be_bytes(*b) }).collect();
+        v.sort_unstable();
+        if v.windows(2).any(|w| w[1] - w[0] < (1u128 << 64)) {
+            return true;
+        }
+        if v.len() > 1 && v[0].wrapping_sub(v[v.len() - 1]) < (1u128 << 64) {
+            return true;
+        }
+    }
+    false
+}
+
+fn nonce_of(b: &[u8]) -> Option<[u8; 16]> {
+    if b.len() >= 16 {
+        let mut n = [0u8; 16];
+        n.copy_from_slice(&b[..16]);
+        Some(n)
+    } else {
+        None
+    }
 }
 
 // ------------------------------------------------------------------ msg
@@ -204,6 +298,14 @@ fn exec_msg(n: usize, seed: u64) -> String {
     // freshness
     let ct2 = key.encrypt_data(&msg).unwrap_or_default();
     let fresh = ct2.len() == ct.len() && ct2[..16] != ct[..16] && key.decrypt_data(&ct2).map(|m| m == msg).unwrap_or(false);
+    // … and the nonces of a few more messages of this process are unrelated (not a counter, not a shared half)
+    let mut nonces: Vec<[u8; 16]> = vec![nonce_of(&ct).unwrap_or_default(), nonce_of(&ct2).unwrap_or_default()];
+    for _ in 0..3 {
+        nonces.push(nonce_of(&Key::new().encrypt_data(&msg).unwrap_or_default()).unwrap_or_default());
+    }
+    if fresh && nonces_related(&nonces) {
+        return "oracle-fail:nonces-related".into();
+    }
     // a different key must not open it
     if Key::new().decrypt_data(&ct).is_ok() {
         return "oracle-fail:other-key-accepts".into();
@@ -320,6 +422,24 @@ fn exec_blob(z: bool, data: &[u8]) -> String {
 
 // ------------------------------------------------------------------ keys
 
+
+/// Password number -> password.  0..9: `pw<n>`; from 10 on: passwords with leading / trailing / only white space (blank, tab,
+/// newline, CR LF, NBSP, em space), the empty password, inner white space, non-ASCII and combining characters — pairwise
+/// DISTINCT strings, several of which trim to another entry of the table (`pw1`, `pw2`, ``, `пароль`).
+fn password(arg: &str) -> Option<String> {
+    let i: usize = arg.parse().ok()?;
+    const WS: [&str; 16] = [
+        " pw1", "pw1 ", "pw1\n", "\tpw1\t", "pw1\r\n", " ", "", "\n", "pw 1", "пароль", "пароль ", "\u{a0}pw2", "pw2\u{2003}", "p\u{301}w2", "  ",
+        "pw1  ",
+    ];
+    if i < 10 { Some(format!("pw{i}")) } else { WS.get(i - 10).map(|s| (*s).to_string()) }
+}
+/// numbers of the white-space table and, for each, the number of the password it trims to (if that one is in the table)
+const WS_TRIMS: [(u64, Option<u64>); 16] = [
+    (10, Some(1)), (11, Some(1)), (12, Some(1)), (13, Some(1)), (14, Some(1)), (15, Some(16)), (16, None), (17, Some(16)), (18, None), (19, None),
+    (20, Some(19)), (21, Some(2)), (22, Some(2)), (23, None), (24, Some(16)), (25, Some(1)),
+];
+
 fn plant_key(h: &RepoHandle, pw: &str, rng: &mut Rng) -> Result<Id, String> {
     let mut kf = KeyFile {
         hostname: None,
@@ -359,7 +479,7 @@ fn exec_keys(script: &str) -> String {
     for op in script.split(',') {
         let (c, arg) = op.split_at(1.min(op.len()));
         match c {
-            "a" => match plant_key(&h, &format!("pw{arg}"), &mut rng) {
+            "a" => match password(arg).ok_or_else(|| "bad-op".to_string()).and_then(|p| plant_key(&h, &p, &mut rng)) {
                 Ok(id) => added.push(Some(id)),
                 Err(e) => return e,
             },
@@ -368,7 +488,8 @@ fn exec_keys(script: &str) -> String {
                     Ok(r) => r,
                     Err(e) => return errkind(&e),
                 };
-                match repo.add_key(&format!("pw{arg}"), &KeyOptions::default()) {
+                let Some(pw) = password(arg) else { return "bad-op".into() };
+                match repo.add_key(&pw, &KeyOptions::default()) {
                     Ok(id) => added.push(Some(Id::from(*id))),
                     Err(e) => return errkind(&e),
                 }
@@ -400,7 +521,10 @@ fn exec_keys(script: &str) -> String {
                 };
                 h.be.put_raw(FileType::Key, id, Bytes::from(content));
             }
-            "o" => out.push(open_pw(&h, &format!("pw{arg}"))),
+            "o" => match password(arg) {
+                Some(pw) => out.push(open_pw(&h, &pw)),
+                None => return "bad-op".into(),
+            },
             "m" => out.push(match h.open_nocache() {
                 Ok(_) => "ok".into(),
                 Err(e) => errkind(&e),
@@ -410,6 +534,26 @@ fn exec_keys(script: &str) -> String {
     }
     // key files are the only plaintext-readable files; they must not contain the master key material
     format!("ok {}", if out.is_empty() { "-".to_string() } else { out.join(",") })
+}
+
+
+/// `init` with a password (real `Repository::init` -> `add_key_to_repo`), then open attempts with passwords.
+fn exec_initpw(p: &str, qs: &str) -> String {
+    let Some(pw) = password(p) else { return "bad-op".into() };
+    let be = MemBackend::new();
+    let h = RepoHandle { be, hot: None, key: rustic_core::repofile::MasterKey::new() };
+    let init = Repository::new(&repo::nocache_opts(), &h.backends()).and_then(|r| r.init(&Credentials::password(&pw), &KeyOptions::default(), &ConfigOptions::default()));
+    if let Err(e) = init {
+        return errkind(&e);
+    }
+    let mut out = Vec::new();
+    for q in qs.split(',') {
+        match password(q) {
+            Some(q) => out.push(open_pw(&h, &q)),
+            None => return "bad-op".into(),
+        }
+    }
+    format!("ok {}", out.join(","))
 }
 
 // ------------------------------------------------------------------ repository-level oracles
@@ -531,6 +675,9 @@ fn exec_scan(seed: u64) -> String {
             push_nonce(&mut nonces, &bytes[end..]);
         }
     }
+    if nonces_related(&nonces) {
+        return "oracle-fail:nonces-related".into();
+    }
     let total = nonces.len();
     let distinct: BTreeSet<[u8; 16]> = nonces.into_iter().collect();
     // index files may list a pack twice (marked + unmarked): allow duplicates that come from the same position only
@@ -572,6 +719,229 @@ fn exec_scan(seed: u64) -> String {
         }
     }
     "ok".into()
+}
+
+
+
+// ------------------------------------------------------------------ sites: the write call sites of the current source
+
+fn exec_sites() -> String {
+    let verif = std::path::Path::new(env!("CARGO_MANIFEST_DIR")).parent().map(std::path::Path::to_path_buf).unwrap_or_default();
+    let repo_dir = std::env::var("VERIF_REPO").map(std::path::PathBuf::from).unwrap_or_else(|_| verif.parent().map(|p| p.join("repo")).unwrap_or_default());
+    let out = std::process::Command::new("python3")
+        .arg(verif.join("tools").join("c04_write_sites.py"))
+        .arg(repo_dir.join("crates").join("core").join("src"))
+        .output();
+    match out {
+        Ok(o) if o.status.success() => {
+            let txt = String::from_utf8_lossy(&o.stdout);
+            let lines: Vec<&str> = txt.lines().filter(|l| !l.is_empty()).collect();
+            if lines.iter().any(|l| l.contains(" unknown:")) {
+                // a write whose content has no recognised origin: not shown to be ciphertext
+                return format!("oracle-fail:unclassified-write-site {}", lines.iter().find(|l| l.contains(" unknown:")).unwrap());
+            }
+            format!("ok {}", lines.join(";"))
+        }
+        _ => "oracle-fail:site-scan-did-not-run".into(),
+    }
+}
+
+// ------------------------------------------------------------------ hist: scan after every command
+
+const NEEDLES2: [&[u8]; 3] = [b"NEEDLE-DESC-aa11", b"NEEDLE-CMD-bb22", b"NEEDLE-TAG2-cc33"];
+
+fn scan_one(tpe: FileType, bytes: &[u8], secrets: &[Vec<u8>]) -> Result<(), String> {
+    if tpe == FileType::Key {
+        // key files are plaintext JSON by design; they must not expose the master key
+        for sct in secrets {
+            if contains(bytes, sct) {
+                return Err("oracle-fail:master-key-in-key-file".into());
+            }
+        }
+        return Ok(());
+    }
+    for n in NEEDLES.iter().chain(NEEDLES2.iter()).chain(JSON_FIELDS.iter()) {
+        if contains(bytes, n) {
+            return Err(format!("oracle-fail:plaintext-in-{}", repo::ft_name(tpe)));
+        }
+    }
+    for sct in secrets {
+        if contains(bytes, sct) {
+            return Err(format!("oracle-fail:master-key-in-{}", repo::ft_name(tpe)));
+        }
+    }
+    Ok(())
+}
+
+/// the base64 strings of the serialised master key (what a key file wraps)
+fn master_secrets(h: &RepoHandle) -> Vec<Vec<u8>> {
+    let mut out = Vec::new();
+    if let Ok(v) = serde_json::to_value(&h.key) {
+        fn walk(v: &serde_json::Value, out: &mut Vec<Vec<u8>>) {
+            match v {
+                serde_json::Value::String(s) if s.len() >= 16 => out.push(s.as_bytes().to_vec()),
+                serde_json::Value::Object(m) => m.values().for_each(|x| walk(x, out)),
+                serde_json::Value::Array(a) => a.iter().for_each(|x| walk(x, out)),
+                _ => {}
+            }
+        }
+        walk(&v, &mut out);
+    }
+    out
+}
+
+fn exec_hist(seed: u64) -> String {
+    let mut rng = Rng::new(seed);
+    let mut cfg = ConfigOptions::default();
+    match rng.below(3) {
+        0 => cfg.set_compression = Some(0),
+        1 => cfg.set_compression = Some(-3),
+        _ => {}
+    }
+    cfg.set_datapack_size = Some(bytesize::ByteSize::kib(rng.range(4, 32)));
+    cfg.set_treepack_size = Some(bytesize::ByteSize::kib(rng.range(1, 4)));
+    let be = MemBackend::new();
+    // every file a command removes is kept for the scan
+    let removed: Arc<std::sync::Mutex<Vec<(FileType, Bytes)>>> = Arc::new(std::sync::Mutex::new(Vec::new()));
+    {
+        let (r2, b2) = (removed.clone(), be.clone());
+        be.set_gate(Some(Arc::new(move |_k, op: &repo::LogOp| {
+            if !op.write {
+                if let Some(c) = b2.get(op.tpe, &op.id) {
+                    r2.lock().unwrap().push((op.tpe, c));
+                }
+            }
+        })));
+    }
+    let (h, _r) = match RepoHandle::init_oc(be, None, &cfg) {
+        Ok(x) => x,
+        Err(e) => return errkind(&e),
+    };
+    let secrets = master_secrets(&h);
+    if secrets.is_empty() {
+        return "oracle-fail:no-master-secret-strings".into();
+    }
+    let mut seen = [0usize; 5];
+    // first 16 bytes (= nonce of the file, of a pack's first blob) of every non-key file ever seen, by content
+    let file_nonces: std::cell::RefCell<std::collections::BTreeMap<Vec<u8>, [u8; 16]>> = std::cell::RefCell::new(std::collections::BTreeMap::new());
+    let scan = |h: &RepoHandle, cmd: &str, seen: &mut [usize; 5]| -> Result<(), String> {
+        for ((t, id), bytes) in &h.be.store() {
+            seen[*t as usize] += 1;
+            scan_one(repo::FILE_TYPES[*t as usize], bytes, &secrets).map_err(|e| format!("{e}-after-{cmd}"))?;
+            if *t != repo::ft_idx(FileType::Key) {
+                if let Some(n) = nonce_of(bytes) {
+                    let _ = id;
+                    let mut k = vec![*t];
+                    k.extend_from_slice(&Sha256::digest(bytes));
+                    _ = file_nonces.borrow_mut().insert(k, n);
+                }
+            }
+        }
+        for (tpe, bytes) in removed.lock().unwrap().drain(..) {
+            seen[repo::ft_idx(tpe) as usize] += 1;
+            scan_one(tpe, &bytes, &secrets).map_err(|e| format!("{e}-removed-by-{cmd}"))?;
+            if tpe != FileType::Key {
+                if let Some(n) = nonce_of(&bytes) {
+                    let mut k = vec![repo::ft_idx(tpe)];
+                    k.extend_from_slice(&Sha256::digest(&bytes));
+                    _ = file_nonces.borrow_mut().insert(k, n);
+                }
+            }
+        }
+        Ok(())
+    };
+    // a key file (the handle opens with the master key; `init` with a master key writes none)
+    if let Err(e) = plant_key(&h, "pw-init", &mut rng) {
+        return e;
+    }
+    if let Err(e) = scan(&h, "init", &mut seen) {
+        return e;
+    }
+    let mut snaps: Vec<SnapshotFile> = Vec::new();
+    let n_cmds = 4 + rng.below(5);
+    let mut round = 0u64;
+    for step in 0..n_cmds {
+        let cmd = if step == 0 || snaps.is_empty() { "backup" } else { *rng.pick(&["backup", "backup", "merge", "forget-prune", "prune-all", "repair-index", "config", "key"]) };
+        let res: Result<(), String> = (|| {
+            match cmd {
+                "backup" => {
+                    let src = needle_source(&mut rng, round);
+                    round += 1;
+                    let mut o = snapshot_opts().description("NEEDLE-DESC-aa11 text".to_string()).command("NEEDLE-CMD-bb22 --flag".to_string());
+                    o = o.tags(vec!["NEEDLE-TAG2-cc33".parse().map_err(|_| "oracle-fail:tag-parse".to_string())?]);
+                    let snap = o.to_snapshot().map_err(|e| errkind(&e))?;
+                    let r = h.open_oc().map_err(|e| errkind(&e))?.to_indexed_ids().map_err(|e| errkind(&e))?;
+                    snaps.push(r.archive(&BackupOptions::default(), &src, snap, &[std::path::PathBuf::from(repo::SRC_ROOT)]).map_err(|e| errkind(&e))?);
+                }
+                "merge" => {
+                    let repo = h.open_oc().map_err(|e| errkind(&e))?.to_indexed_ids().map_err(|e| errkind(&e))?;
+                    let snap = snapshot_opts().to_snapshot().map_err(|e| errkind(&e))?;
+                    let m = repo
+                        .merge_snapshots(&snaps, &|a: &rustic_core::repofile::Node, b: &rustic_core::repofile::Node| a.meta.mtime.cmp(&b.meta.mtime), snap)
+                        .map_err(|e| errkind(&e))?;
+                    snaps.push(m);
+                }
+                "forget-prune" | "prune-all" => {
+                    if cmd == "forget-prune" && snaps.len() > 1 {
+                        let repo = h.open_oc().map_err(|e| errkind(&e))?;
+                        let sn = snaps.remove(0);
+                        repo.delete_snapshots(&[sn.id]).map_err(|e| errkind(&e))?;
+                    }
+                    let mut o = PruneOptions::default();
+                    o.keep_pack = rustic_core::jiff::Span::new();
+                    o.keep_delete = rustic_core::jiff::Span::new();
+                    o.max_unused = LimitOption::Percentage(0);
+                    o.max_repack = LimitOption::Unlimited;
+                    o.repack_all = cmd == "prune-all";
+                    o.instant_delete = rng.chance(1, 2);
+                    let repo = h.open_oc().map_err(|e| errkind(&e))?;
+                    let plan = repo.prune_plan(&o).map_err(|e| errkind(&e))?;
+                    repo.prune(&o, plan).map_err(|e| errkind(&e))?;
+                }
+                "repair-index" => {
+                    let repo = h.open_oc().map_err(|e| errkind(&e))?;
+                    repo.repair_index(&rustic_core::RepairIndexOptions::default().read_all(true), false).map_err(|e| errkind(&e))?;
+                }
+                "config" => {
+                    let mut repo = h.open_oc().map_err(|e| errkind(&e))?;
+                    let mut c = ConfigOptions::default();
+                    c.set_compression = Some(*rng.pick(&[0, 1, 3, -2, 9]));
+                    _ = repo.apply_config(&c).map_err(|e| errkind(&e))?;
+                }
+                "key" => {
+                    _ = plant_key(&h, "pw-hist", &mut rng)?;
+                }
+                _ => return Err("bad-op".into()),
+            }
+            Ok(())
+        })();
+        if let Err(e) = res {
+            return format!("{e}-in-{cmd}");
+        }
+        if let Err(e) = scan(&h, cmd, &mut seen) {
+            return e;
+        }
+    }
+    for t in [FileType::Config, FileType::Index, FileType::Snapshot, FileType::Pack, FileType::Key] {
+        if seen[repo::ft_idx(t) as usize] == 0 {
+            return format!("oracle-fail:scan-saw-no-{}", repo::ft_name(t));
+        }
+    }
+    {
+        let all: Vec<[u8; 16]> = file_nonces.borrow().values().copied().collect();
+        let distinct: BTreeSet<[u8; 16]> = all.iter().copied().collect();
+        if distinct.len() < all.len() {
+            return "oracle-fail:nonce-reused".into();
+        }
+        if nonces_related(&all) {
+            return "oracle-fail:nonces-related".into();
+        }
+    }
+    // the history must leave a readable repository (otherwise "nothing readable in storage" would be vacuous)
+    match read_everything(&h, &snaps) {
+        Ok(_) => "ok".into(),
+        Err(e) => format!("oracle-fail:history-unreadable:{e}"),
+    }
 }
 
 fn read_everything(h: &RepoHandle, snaps: &[SnapshotFile]) -> Result<Vec<Vec<repo::ReadBack>>, String> {
@@ -745,7 +1115,10 @@ pub fn exec(t: &[&str]) -> String {
             None => "bad-op".into(),
         },
         ["keys", script] => exec_keys(script),
+        ["initpw", p, qs] => exec_initpw(p, qs),
         ["scan", seed] => seed.parse::<u64>().map_or("bad-op".into(), exec_scan),
+        ["sites"] => exec_sites(),
+        ["hist", seed] => seed.parse::<u64>().map_or("bad-op".into(), exec_hist),
         ["tamper", seed] => seed.parse::<u64>().map_or("bad-op".into(), exec_tamper),
         ["swap", "snapshot", seed] => seed.parse::<u64>().map_or("bad-op".into(), exec_swap),
         _ => "bad-op".into(),
